@@ -53,12 +53,24 @@ def gen_system(rnd):
                 cross = cys[:2]
             if rnd.random() < 0.3:
                 res[-1]['surplus'] = True
-            mols.append({'kind': 'protein', 'chain': rnd.choice(['A', 'B', 'A', '']), 'res': res, 'cross': cross})
+            chain = rnd.choice(['A', 'B', 'A', ''])
+            if chain and len(res) >= 3 and rnd.random() < 0.25:
+                # two chains in one bonded molecule, listed interleaved: a stretch in the middle carries the other chain identifier
+                # (a residue written after the atoms of another chain, cross-linked chains): A A B B A
+                i0 = rnd.randint(1, len(res) - 2)
+                i1 = rnd.randint(i0 + 1, len(res) - 1)
+                for x in res[i0:i1]:
+                    x['chain'] = 'B' if chain == 'A' else 'A'
+            mols.append({'kind': 'protein', 'chain': chain, 'res': res, 'cross': cross})
         else:
             n = rnd.randint(1, 3)
             res = [{'resname': rnd.choice(LIGS), 'resid': rnd.choice([1, 2, 4, 45]) + i, 'icode': ''} for i in range(n)]
             mols.append({'kind': 'ligand', 'chain': rnd.choice(['A', 'L', '']), 'res': res, 'cross': None, 'linked': rnd.random() < 0.5})
     return mols
+
+
+def rchain(m, r):
+    return r.get('chain', m['chain'])
 
 
 def fmt_spec(parts):
@@ -94,7 +106,7 @@ def gen_specs(rnd, mols):
         elif r < 0.8:
             mi, ri = rnd.choice(allres)
             m = mols[mi]
-            full = {'chain': m['chain'], 'resname': m['res'][ri]['resname'], 'resid': m['res'][ri]['resid']}
+            full = {'chain': rchain(m, m['res'][ri]), 'resname': m['res'][ri]['resname'], 'resid': m['res'][ri]['resid']}
             keys = rnd.sample(sorted(full), rnd.randint(1, 3))
             parts = {k: full[k] for k in keys if not (k == 'chain' and not full[k])}
             if not parts:
@@ -132,7 +144,7 @@ def build(mols, with_atoms=True):
                 for an in blk.nodes:
                     local[an] = k
                     mol.add_node(k, atomname=an, element=blk.nodes[an].get('element', an[0]), resname=r['resname'], resid=r['resid'],
-                                 chain=m['chain'], insertion_code=r['icode'], atomid=k + 1, tag=(mi, ri))
+                                 chain=rchain(m, r), insertion_code=r['icode'], atomid=k + 1, tag=(mi, ri))
                     k += 1
                 for u, v in blk.edges:
                     mol.add_edge(local[u], local[v])
@@ -142,7 +154,7 @@ def build(mols, with_atoms=True):
                 if r.get('surplus'):
                     # an atom the plain residue block does not have (a second carboxylate oxygen): belongs to a C-terminal
                     # modification if one is requested, is surplus if the residue is requested as anything else
-                    mol.add_node(k, atomname='OXT', element='O', resname=r['resname'], resid=r['resid'], chain=m['chain'],
+                    mol.add_node(k, atomname='OXT', element='O', resname=r['resname'], resid=r['resid'], chain=rchain(m, r),
                                  insertion_code=r['icode'], atomid=k + 1, tag=(mi, ri))
                     mol.add_edge(local['C'], k)
                     k += 1
@@ -198,11 +210,11 @@ def expected_targets(mols, specs):
                         nb = next(iter(adj[ri]))
                         other = m['res'][nb]['resid']
                         ok = r['resid'] < other if parts['resname'] == 'nter' else r['resid'] > other
-                    if ok and 'chain' in parts and parts['chain'] != m['chain']:
+                    if ok and 'chain' in parts and parts['chain'] != rchain(m, r):
                         ok = False
                 else:
                     for k, v in parts.items():
-                        have = {'chain': m['chain'], 'resname': r['resname'], 'resid': r['resid']}[k]
+                        have = {'chain': rchain(m, r), 'resname': r['resname'], 'resid': r['resid']}[k]
                         if have != v:
                             ok = False
                 if ok:
@@ -279,7 +291,7 @@ def check_repair(mols, specs, system, b):
             if mmi != mi:
                 continue
             r = mols[mi]['res'][ri]
-            atoms = by_res.get((mols[mi]['chain'], r['resid'], r['icode']), [])
+            atoms = by_res.get((rchain(mols[mi], r), r['resid'], r['icode']), [])
             target = mk['mutation'][0] if mk['mutation'] else r['resname']
             names = {d['atomname'] for d in atoms if d.get('atomname') is not None}
             want = set(ff.blocks[target].nodes)
